@@ -404,7 +404,7 @@ def body(ctx, case):
 
 
 SUBS = [
-    Sub(name="superposition", body=body, strategy=lambda ctx: case_strategy(ctx), quick=12, thorough=320,
+    Sub(name="superposition", body=body, strategy=lambda ctx: case_strategy(ctx), quick=8, thorough=320,
         lanes=("f64", "f32"), f32_fraction=0.25, quick_shards=3, max_seconds_quick=420.0,
         rule="fixed scene; runs: each source alone, initial state alone, joint, scaled; numpy linear combination"),
 ]
